@@ -69,7 +69,7 @@ def scaffold_length(sc):
     return sum((r[1] if r[0] == "G" else r[3] - r[2] + 1) for r in sc["rows"])
 
 
-def render_fasta_for(rng, scaffolds, width=None):
+def render_fasta_for(rng, scaffolds, width=None, crlf=False):
     """FASTA text whose index-derived assembly is exactly `scaffolds`
     (FASTA-backed ones): ACGT for fragments, N for gaps; fragment boundaries
     are made unambiguous by never letting a fragment be followed directly by
@@ -84,9 +84,10 @@ def render_fasta_for(rng, scaffolds, width=None):
             else:
                 seq.append("".join(rng.choice(_ACGT) for _ in range(r[3] - r[2] + 1)))
         s = "".join(seq)
-        out.write(">" + sc["name"] + "\n")
+        nl = "\r\n" if crlf else "\n"
+        out.write(">" + sc["name"] + nl)
         for j in range(0, len(s), width):
-            out.write(s[j:j + width] + "\n")
+            out.write(s[j:j + width] + nl)
     return out.getvalue()
 
 
@@ -323,7 +324,7 @@ def gen_workload(rng, fasta_backed=True, tagging=True, haps=None):
         "pretext_agp": render_pretext_agp(m),
     }
     if fasta_backed:
-        w["fasta"] = render_fasta_for(rng, scaffolds)
+        w["fasta"] = render_fasta_for(rng, scaffolds, crlf=rng.random() < 0.15)
     return w
 
 
